@@ -178,6 +178,22 @@ def check_entry_points(data, o, res):
 def check_case(label, data, info, res: Result):
     o, viols, mode = evaluate(data)
     SHARED["n"] += 1
+    # deferred read: the previous case's Parser object is read again now that another
+    # Parser has run; what it holds must be what it held right after its own parse()
+    prev = SHARED.get("deferred")
+    if prev is not None:
+        pp, pdata, psnap = prev
+        now = lab.snapshot(pp)
+        res.monitor("result-stable-while-other-parsers-run", now != psnap)
+        if now != psnap:
+            res.violation({"oracle": "parser-object-changed-after-another-parser-ran",
+                           "what": "tree" if now[0] != psnap[0] else
+                           ("error" if now[1] != psnap[1] else "error_pos")},
+                          {"input": pdata, "next_input": data,
+                           "right_after_parse": repr(psnap)[:300],
+                           "after_next_parse": repr(now)[:300]})
+    SHARED["deferred"] = (o.parser, data, lab.snapshot(o.parser)) \
+        if (label != "tok" or SHARED["n"] % 4 == 0) else None
     if SHARED["tmp"] and (label in ("long", "replay") or SHARED["n"] % 16 == 0 or (
             b"\r" in data and label != "tok" and o.verdict() is True)):
         check_entry_points(data, o, res)
